@@ -1517,7 +1517,13 @@ def _units_stage(case, labels, stage):
     _touch(ec, 'shear', C6, mine, info, what)
     if T0['kind'] == 'named':
         s = T0['system']
-        if s != 'monoclinic':
+        # a constant within a factor 5 of the Cij setter's documented 1e-9 clean-up (nu = 1e-9: C12 = 1e-9 C11) is zeroed or kept
+        # entry by entry as rounding under the unit configuration decides: the symmetry-equivalent entries then differ, no verdict asked
+        rel6 = np.abs(C6) / float(np.abs(C6).max())
+        on_floor = bool(np.any((rel6 > 2e-10) & (rel6 < 5e-9)))
+        if on_floor:
+            labels.add('constant_on_cleanup_floor')
+        if s != 'monoclinic' and not on_floor:
             require(bool(ec.is_normal(s)), lambda: '%s: is_normal(%s) is False for a tensor built from %s constants' % (what, s, s))
     # the documented default tolerances of is_normal are plain numbers (atol = 1e-4 in working units)
     N = _get(ec.normalized_as('cubic'), 'Cij', (6, 6))
